@@ -45,10 +45,17 @@ def find_spec(interp, frame, node):
         for fr in reversed(interp.frame_stack):
             if not fr.info.filename.endswith('functools_model.py'):
                 key = 'reduce#%d' % fr.reduce_site
-                spec = interp.reg.loops_by_key.get((fr.info.filename, fr.info.qualname, key))
+                spec = _pick(interp, interp.reg.loops_by_key.get((fr.info.filename, fr.info.qualname, key)))
                 return spec, key
         return None, ordinal
-    return interp.reg.loops_by_key.get((frame.info.filename, frame.info.qualname, ordinal)), ordinal
+    return _pick(interp, interp.reg.loops_by_key.get((frame.info.filename, frame.info.qualname, ordinal))), ordinal
+
+
+def _pick(interp, specs):
+    """several sidecar modules may annotate the same loop: the module under verification comes first"""
+    if specs is None or not hasattr(specs, 'pick'):
+        return specs
+    return specs.pick(getattr(interp.reg, 'current_module', None))
 
 
 _MUTATORS = {'append', 'extend', 'insert', 'pop', 'add', 'update', 'clear', 'remove', 'popleft', 'appendleft',
